@@ -37,7 +37,8 @@ func exportHits(c *hx.Ctx) {
 const wb = hx.WordBase
 
 var edgeW = []uint64{0, 0, 1, 2, 10, 1000000000, wb / 10, wb/2 - 1, wb / 2, wb/2 + 1, wb - 2, wb - 1, wb - 1, wb - 1,
-	wb / 3, wb/3 + 1, wb / 6, wb/6 + 1, wb / 7, wb / 9, wb / 4, wb / 5} // B/k: where B/(v+1) and (B-1)/v differ
+	wb / 3, wb/3 + 1, wb / 6, wb/6 + 1, wb / 7, wb / 9, wb / 4, wb / 5,
+	1 << 63, 1<<63 - 1, 1 << 62, 1<<64 - wb, 1<<64 - wb - 1, 1 << 32} // ... and binary boundaries: two valid words can sum to 2^64 - 1, 2^64 // B/k: where B/(v+1) and (B-1)/v differ
 
 func genWord(r *hx.RNG) decimal.Word {
 	if r.Chance(45) {
